@@ -387,6 +387,25 @@ def _check_status(run, repo, world, mod, spec):
            "the attempt counter must be incremented and compared with the "
            "configured limit (None = unlimited): tests %s" % tests,
            where(mod, fn))
+    # the count compared is the count *including* this attempt: with
+    # `count > limit` as the test, no path reaches the test without the
+    # increment (an increment behind the test makes limit + 1 attempts, and
+    # reconnect_limit=0 waits and retries once instead of failing at once)
+    if incr_aug and "self._reconnect_count > self._reconnect_limit" in tests:
+        from ..cfg import reachable_from
+
+        def is_incr(n):
+            return n.kind == "stmt" and unparse(n.ast) == \
+                "self._reconnect_count += 1"
+        early = reachable_from(cfg.entry, avoid=is_incr)
+        late_t = [n for n in early if n.kind == "test" and _aq.canon(
+            fn, n.ast) == "self._reconnect_count > self._reconnect_limit"]
+        run.ob("R-RECONNECT", Q + "#limit-counts-this-attempt", not late_t,
+               "the limit test at line %s can be reached before the attempt "
+               "counter is incremented: the driver makes reconnect_limit + 1 "
+               "attempts before it reports 'failed' (reconnect_limit=0 "
+               "retries once)" % (late_t[0].lineno if late_t else ""),
+               where(mod, fn))
 
 
 def _check_wake(run, repo, world, mod):
